@@ -25,8 +25,8 @@ CLAIMS = {
             "HMAC-SHA512 is uninterpreted below the compression function, point multiplication is uninterpreted; both trusted. Depth 2 and mixed paths are attempts; deeper paths repeat the same loop body on a state the symbolic HMAC outputs already make arbitrary."),
     "C04": ("Solver-decided: PrivateKey::new accepts a 32-byte string iff 0 < value < n (all 2^256 values, real k256 comparison code), other lengths 0..64 are rejected or read as the same integer; the address is bytes 12..32 of one Keccak over exactly the 64 coordinate bytes, for the encoding of this secret's point and (encoding abstracted) for every 65-byte encoding.",
             "secret*G and Keccak-256 are uninterpreted (trusted); EIP-55 casing is ethaddr's Display and not decided."),
-    "C06": ("Solver-decided structure: for all 2^256 values of every integer field, recipient present/absent, either parity: exact field order, EIP-155 tail and (v, r, s) tail of legacy transactions (all four signed/chain-id combinations), the unsigned EIP-2930 payload with its type byte, that the signed digest of a legacy transaction is one Keccak over exactly the unsigned payload, the signature accessors, the empty access list.",
-            "Leaf encoders are recorders in the structure queries; their contracts are decided in C07 (assume-guarantee). Signed typed transactions, EIP-1559 and populated access lists exceed the memory caps (concat/extend_from_slice of symbolic length) and are thorough-tier attempts, not claims. JSON -> struct (kind dispatch, field binding) is serde/BTreeMap code out of reach; sender recovery is cryptography."),
+    "C06": ('Solver-decided structure, for all 2^256 values of every integer field, recipient present/absent, either parity: exact field order, EIP-155 tail and (v, r, s) tail of legacy transactions (all four signed/chain-id combinations); type byte || ONE list of exactly [chainId, nonce, fees, gas, to, value, data, accessList (, yParity, r, s)] for EIP-2930 and EIP-1559, signed and unsigned; calldata of symbolic length 0..40 and access lists of 0..2 entries reach their leaves unchanged; the signed digest of every kind is one Keccak over exactly the unsigned payload; Transaction::encode equals the per-kind encoder (thorough); signature accessors; the empty access list.',
+            'Assume-guarantee: rlp::uint / rlp::bytes / rlp::list / AccessList::rlp_encode are recorders in the structure queries and their contracts are decided in C07. Populated access lists through the real rlp::iter exceed the caps (attempts c06a_alist_*). JSON -> struct: the kind dispatch in Deserialize for Transaction cannot be compiled by Kani 0.68 (internal compiler error on the niche-encoded Result<Eip1559Transaction, _>, attempt c06_kind_dispatch), field binding is serde-derive; sender recovery is cryptography.'),
     "C07": ("Solver-decided: length header canonical and minimal for all 2^64 lengths and both kinds; byte strings of every length 0..60 (one query) and 0, 1, 2, 55..57, 128 (quick), 3, 20, 32, 33, 54, 64, 100, 255..257 (thorough) with all contents; integers for all 2^256 values; lists/iterators on both sides of the 55/56 boundary and with a two-byte length.",
             "Payload content is symbolic up to 257 bytes; longer payloads are covered by the header query for every length plus the absence of any other length-dependent branch in rlp::bytes."),
     "C08": ("Solver-decided in parts: atomic encodings (bytesN alignment and exact length, dynamic bytes and strings hashed, intN/uintN words), the final 0x1901 preimage with accessors and error propagation. encodeType over symbolic reference graphs and the member type grammar are thorough-tier attempts (see level_note).",
@@ -45,8 +45,8 @@ CLAIMS = {
             "an entropy request, a negative status is an error, otherwise exactly one request of 4L/3 bytes whose bytes are the "
             "entropy verbatim, checksum over exactly them, reported length L.",
             "The CLI (printing, vanity retries, threads) is process-level and not decided."),
-    "C13": ("Solver-decided for JSON numbers at the deserializer hdwallet owns (serialization::num): every u64 through the production instantiation D = serde_json::Value; every u64, i64 and the sign guard through serde's primitive deserializers as D (stated as a different instantiation of the same generic function); the empty string.",
-            "Numeric strings, byte fields, storage keys and recipients go through serde_json's Value visitor machinery and exceed the caps beyond trivial sizes (thorough-tier attempts). That every struct field is bound to these deserializers (serde derive) is not decided."),
+    "C13": ("Solver-decided at the deserializers hdwallet owns: JSON numbers (serialization::num): every u64 through the production instantiation D = serde_json::Value, every u64/i64 and the sign guard through serde's primitive deserializers, the empty string; dynamic byte fields (serialization::bytes with D = serde_json::Value and the real hex decoder): every ASCII string of 2 and 4 bytes -- Ok iff 0x + an even number of hex digits, value exact.",
+            "Error message text is cut (core::fmt::write writes nothing) in the string queries. Numeric strings of 1+ characters, storage keys and recipients still exceed the caps (ethnum's 256-bit string parser, 32-byte hex decode; attempts c13n_*). Symbolic floats do not finish. That every struct field is bound to these deserializers (serde derive) is not decided."),
     "C14": ("Solver-decided: one path component for every ASCII string up to 12 bytes (all canonical spellings, the 2^31 and 2^32 boundaries), and Path::from_str for every ASCII string of 2 and 3 bytes (missing root, empty and trailing components).",
             "Longer paths exceed the memory cap even with the memchr reference stubs; Display output is std integer formatting; Path::for_index builds its text with format!. All three are outside the claim."),
     "C15": ("Solver-decided for parsing: every ASCII string of exactly 130 and 132 bytes (Ok iff [0x] + 130 hex digits, v in "
@@ -59,9 +59,8 @@ CLAIMS = {
     "C18": ("Solver-decided for parsing and matching: every ASCII prefix text up to 7 bytes x every 20-byte address; 40/41-digit "
             "prefixes.",
             "The search loop, worker threads and which account is searched are process-level and not decided."),
-    "C19_unused": ("Solver-decided for the decoder: every ASCII string up to 6 bytes, Unicode whitespace at every position, and "
-            "decode(encode(b)) = b with lower-case output for b up to 3 bytes.",
-            "stdin/stdout plumbing and long inputs are outside."),
+    "C19": ("Solver-decided at the library boundary (cmd::permissive_hex, hex::encode, hex::decode): hdwallet's white-space filter and prefix handling for every ASCII string of 4, 8 and 12 bytes (3, 6, 16 thorough) and for one non-ASCII character (four Unicode white-space characters, two non-white-space ones) at every position, with the decoder abstracted; with the real decoder every ASCII string of 0..4 bytes (0..6 and the non-ASCII palette thorough): Ok iff optional 0x + an even number of hex digits of either case once white space is removed, value exact; decode(respelling(encode(b))) = b for 1 byte (0, 3 thorough) with lower-case two-digit encoding, per-digit case, optional prefix and one inserted white-space character symbolic.",
+            "String's growth policy is replaced by a fixed pre-allocation (String::new/push/push_str stubs; contents unchanged, overflow asserted). stdin/stdout plumbing of cmd::hex::run (read_input, str::from_utf8, println!, write_all) is process-level and not decided; inputs longer than the stated bounds are outside."),
     "C20": ("Solver-decided: verify_domain_type for every declaration of up to 3 members (quick; up to 5 in the thorough tier) with names from the five standard ones plus a foreign one and types from eight kinds (orderings, repeats, wrong types), and a missing domain type.",
             "HashMap look-up replaced by a table look-up. The type *strings* are parsed by MemberKind::from_str, which is not decided (C08). 'Hashed according to C08' is C08's claim."),
 }
